@@ -4,6 +4,7 @@ package main
 
 import (
 	"fmt"
+	"os"
 	"sort"
 	"strings"
 	"sync"
@@ -22,18 +23,19 @@ type Dec struct {
 }
 
 type Config struct {
-	Unwind         int   // per-frame block visit bound
-	MaxDepth       int   // call depth
-	MaxSteps       int64 // instructions per path
-	MaxDecisions   int   // decisions per path
-	Preempt        int   // preemption bound
-	MaxGoroutines  int
-	MaxVisible     int // visible operations per path
-	MapRangeRotate bool
-	Race           bool
-	MaxPaths       int64
-	Workers        int
-	StopOnFirst    bool
+	Unwind          int   // per-frame block visit bound
+	MaxDepth        int   // call depth
+	MaxSteps        int64 // instructions per path
+	MaxDecisions    int   // decisions per path
+	Preempt         int   // preemption bound
+	MaxGoroutines   int
+	MaxVisible      int // visible operations per path
+	MapRangeRotate  bool
+	ConcretizeIndex bool // case-split symbolic slice indexes instead of ite-chains
+	Race            bool
+	MaxPaths        int64
+	Workers         int
+	StopOnFirst     bool
 }
 
 func defaultConfig() Config {
@@ -753,6 +755,26 @@ func runEntry(prog *Program, entry *ssa.Function, cfg Config, fixed map[string]u
 	if fixed != nil {
 		nw = 1
 	}
+	stopProg := make(chan struct{})
+	if os.Getenv("FSX_PROGRESS") != "" {
+		go func() {
+			tk := time.NewTicker(10 * time.Second)
+			defer tk.Stop()
+			for {
+				select {
+				case <-stopProg:
+					return
+				case <-tk.C:
+					mu.Lock()
+					work.mu.Lock()
+					fmt.Fprintf(os.Stderr, "[progress %s] paths=%d status=%v queue=%d queries=%d t=%.0fs\n", entry.Name(), er.Stats.Paths, er.Stats.ByStatus, len(work.items), atomic.LoadInt64(&gStats.Queries), time.Since(t0).Seconds())
+					work.mu.Unlock()
+					mu.Unlock()
+				}
+			}
+		}()
+	}
+	defer close(stopProg)
 	for w := 0; w < nw; w++ {
 		wg.Add(1)
 		go func() {
